@@ -69,7 +69,7 @@ type G struct {
 }
 
 var plainWords = []string{"alpha", "beta", "gamma", "delta", "eps", "zeta", "eta", "theta", "iota", "kappa", "lam", "mu", "nu", "xi", "omi", "pi", "rho", "sig", "tau", "ups"}
-var weirdBits = []string{" ", "ü", "é-", "中", "+", "@", "#", "~", ",", "=", "'"}
+var weirdBits = []string{" ", "ü", "é-", "中", "+", "@", "#", "~", ",", "=", "'", "%", "%s", "%20", "&", ";", "!"}
 var metaBits = []string{"{", "}", "[", "]", "*", "?"}
 
 // word returns a path component. level: 0 plain, 1 may contain spaces/unicode,
@@ -371,7 +371,15 @@ func (g *G) dirEntry(i int) *Content {
 
 func (g *G) symlinkEntry(i int) *Content {
 	d := g.dstFor(i)
-	target := rng.Pick(g.r, []string{"/nonexistent-verif/" + g.word(1), "../" + g.word(0) + "/nonexistent-verif", "nonexistent-verif-" + g.word(0), "/nonexistent-verif/a b"})
+	target := rng.Pick(g.r, []string{"/nonexistent-verif/" + g.word(1), "../" + g.word(0) + "/nonexistent-verif", "nonexistent-verif-" + g.word(0), "/nonexistent-verif/a b",
+		"./nonexistent-verif/../y", "/nonexistent-verif//double", "/nonexistent-verif/trailing/"})
+	if g.o.HostSymlinks && g.r.P(1, 2) {
+		// a target that exists on the build host (inside the materialised tree)
+		n := g.newFile(g.srcDir() + "/hosttarget-" + g.word(0))
+		n.Size = g.r.Range(1000, 5000)
+		target = filepath.Join(g.c.Root, n.Rel)
+		g.c.Feature("symlink-target-exists-on-host")
+	}
 	c := &Content{Type: "symlink", Src: target, Dst: d, Shape: "symlink"}
 	if g.r.P(1, 4) {
 		c.FI = g.fi(false)
@@ -419,7 +427,8 @@ func (g *G) treeEntry(i int) *Content {
 		parent := rng.Pick(g.r, dirs)
 		rel := strings.TrimPrefix(parent+"/tl-"+g.word(0), "/")
 		if _, dup := t.Nodes[sd+"/"+rel]; !dup {
-			target := rng.Pick(g.r, []string{"/nonexistent-verif/t", "../nonexistent-verif", "sibling-nonexistent"})
+			target := rng.Pick(g.r, []string{"/nonexistent-verif/t", "../nonexistent-verif", "sibling-nonexistent",
+				"./nonexistent-verif/../x", "nonexistent-verif//double", "/nonexistent-verif/trailing/", "nonexistent-verif/./dot"})
 			n := &Node{Rel: sd + "/" + rel, Kind: "symlink", Target: target, MTime: g.mtime()}
 			t.Add(n)
 			c.Exp = append(c.Exp, Expect{Dst: d + "/" + rel, Kind: "symlink", Link: target, Node: n})
